@@ -116,7 +116,7 @@ def lsq_inputs(K="vec", baseline="vec", W="mat", lb="nonneg", ub="finite", bs="s
     if ub is None:
         kw["ub"] = none()
     else:
-        kw["ub"] = arr("ub", S("SRC"), U_INT, finite=(ub == "finite"))
+        kw["ub"] = arr("ub", S("SRC"), U_INT, finite=("mixed" if ub == "mixed" else ub == "finite"))
     if bs == "sym":
         kw["batch_size"] = intv("batch_size", "bs")
     elif bs == 1:
